@@ -290,6 +290,12 @@ func portScenario(paths []string, behaviours []string, bound int) e1.Scenario {
 		for k, p := range paths {
 			beh[p] = behaviours[k]
 		}
+		switch beh["tcp"] {
+		case "refused":
+			w.ctrls["tcp"].TCP = "refuse"
+		case "blackhole":
+			w.ctrls["tcp"].TCP = "blackhole"
+		}
 		for _, p := range []string{"udp", "tcp", "broadcast"} {
 			p := p
 			c := w.ctrls[p]
@@ -387,6 +393,14 @@ func main() {
 			scenarios = append(scenarios, portScenario([]string{a, b}, []string{"success", "success"}, 2))
 		}
 	}
+	// a TCP call that fails in every way next to a call that must still be served in turn
+	for _, tb := range []string{"refused", "reset", "eof", "blackhole"} {
+		for _, b := range []string{"udp", "broadcast"} {
+			scenarios = append(scenarios, portScenario([]string{"tcp", b}, []string{tb, "success"}, 2))
+			scenarios = append(scenarios, portScenario([]string{b, "tcp"}, []string{sil[b], tb}, 2))
+			scenarios = append(scenarios, portScenario([]string{"tcp", b, "udp"}[:2+map[string]int{"udp": 0, "broadcast": 1}[b]], append([]string{tb, "success"}, "success")[:2+map[string]int{"udp": 0, "broadcast": 1}[b]], 1))
+		}
+	}
 	for _, perm := range [][]string{{"udp", "tcp", "broadcast"}, {"tcp", "broadcast", "udp"}, {"broadcast", "udp", "tcp"}} {
 		for _, succ := range []int{-1, 0, 1, 2} {
 			b := []string{}
@@ -411,7 +425,7 @@ func main() {
 	if r.Worker == "" && r.Replay == "" {
 		e1.Conformance(r)
 	}
-	r.Rule(fmt.Sprintf("histories: every sequence of length <= %d (fixed bind port: <= %d) over %d steps (path x network behaviour incl. silence, late and just-in-time replies, stray flood, TCP stall/refused/reset/EOF/blackhole, ICMP unreachable, SetAddress, discovery), step by step as environment choices; fixed-port scenarios with 2 and 3 concurrent callers (silent holders first) over all interleavings within the preemption bound. distinct = distinct history/outcome labels", maxLen, maxFixed, len(alphabet)))
+	r.Rule(fmt.Sprintf("histories: every sequence of length <= %d (fixed bind port: <= %d) over %d steps (path x network behaviour incl. silence, late and just-in-time replies, stray flood, TCP stall/refused/reset/EOF/blackhole, ICMP unreachable, SetAddress, discovery), step by step as environment choices; fixed-port scenarios with 2 and 3 concurrent callers (silent holders first; TCP refused / reset / EOF / blackholed next to calls that must be served) over all interleavings within the preemption bound. distinct = distinct history/outcome labels", maxLen, maxFixed, len(alphabet)))
 	r.Assume("virtual time: computation takes no time, so 'within the timeout' is decided with zero scheduling slack")
 	r.Assume("network behaviours are those of mc/shim/vs/net.go (refused connect fails immediately, blackholed connect blocks until the dial deadline, ICMP unreachable surfaces as a read error)")
 	r.Finish()
